@@ -804,6 +804,17 @@ def requiredKeys : Shape → List Str
   | .nil => []
   | .cons k s rest => if s.isOpt then requiredKeys rest else k :: requiredKeys rest
 
+/-- `required` as `convertObjectFromShape` computes it once it asks the OBJECT whether a field may be absent
+    (`IsFieldOptional`, pending fix C07-object-optionality): `Partial()` makes every field optional.  The code before the
+    fix looked at the field schemas alone, i.e. computed `requiredKeys shape` whatever `part` says (`erasePart` in
+    Model/JsonSchemaLazy.lean gives that document). -/
+def reqKeysP : Bool → Shape → List Str
+  | true, _ => []
+  | false, shape => requiredKeys shape
+
+@[simp] theorem reqKeysP_false (shape : Shape) : reqKeysP false shape = requiredKeys shape := rfl
+@[simp] theorem reqKeysP_true (shape : Shape) : reqKeysP true shape = [] := rfl
+
 /-- convertUnion's "optional union" test: exactly two members, exactly one of type Nil.
     `some true` = the first member is the Nil one. -/
 def unionNilSpecial : SList → Option Bool
@@ -843,11 +854,11 @@ def toJS (top o n : Bool) : S → JS
   | .nul s =>
       if s.isNilType || s.isAnyType then toJS top o true s
       else .node (.ofList [.anyOf (.cons (toJS top o true s) (.cons nullJS .nil))])
-  | .obj mode ca _ cks shape =>
+  | .obj mode ca part cks shape =>
       .node (.ofList (
         [.type .object]
         ++ (if shape.keys.isEmpty then [] else [.properties (propsJS shape)])
-        ++ (if (requiredKeys shape).isEmpty then [] else [.required (requiredKeys shape)])
+        ++ (if (reqKeysP part shape).isEmpty then [] else [.required (reqKeysP part shape)])
         ++ [.additionalProperties (caJS ca mode.isLoose)]
         ++ propsKws (szBag cks)))
   | .slice e cks => .node (.ofList ([.type .array, .items (toJS false false false e)] ++ itemsKws (szBag cks)))
@@ -1029,9 +1040,8 @@ def reprP (top : Bool) : S → Bool
   | .lit vs => litHomog vs
   | .opt s => s.docNullable && reprP top s          -- plain Optional accepts null, the document does not
   | .nul s => reprP top s
-  | .obj mode ca part cks shape =>
+  | .obj mode ca _ cks shape =>
       !mode.isStrip                                       -- strip returns a different value (see `reprTop`)
-      && !part                                            -- Partial() keeps `required`
       && !(mode.isStrict && ca.isSome)                    -- strict ignores the catch-all
       && szSimple cks && reprCa ca && reprShape shape
   | .slice e cks => szSimple cks && reprP false e
@@ -1076,9 +1086,9 @@ end
 
 /-- `reprP`, or a strip-mode object at the root whose members are `reprP`. -/
 def reprTop (top : Bool) : S → Bool
-  | .obj .strip ca part cks shape =>
+  | .obj .strip ca _ cks shape =>
       -- size checks see the STRIPPED result, the document counts the input's properties
-      !part && szSimple cks && (!ca.isSome || cks.isEmpty)
+      szSimple cks && (!ca.isSome || cks.isEmpty)
       && reprCa ca && reprShape shape
   | s => reprP top s
 
